@@ -146,7 +146,7 @@ class SdkDriver:
             o = self.cvalue(other)
             t.add(o, mod=mod)     # a register future is passed as it is (add() accepts any BaseFuture)
         elif k == "aborted_loop":
-            class _Abort(Exception):
+            class _Abort(BaseException if (len(s) > 4 and s[4]) else Exception):  # type: ignore[misc]
                 pass
             form = s[2] if len(s) > 2 else "loop_ctx"
 
